@@ -90,7 +90,8 @@ REGISTRY["C05"]["theorems"] += S("C05", "C05_drop_range", "C05_truncate_back", "
 REGISTRY["C02"]["theorems"] += S("C02", "C02_push_back", "C02_push_front", "C02_try_push_back", "C02_try_push_front")
 REGISTRY["C04"]["theorems"] += S("C04", "C04_push_back", "C04_push_front", "C04_pop_back", "C04_pop_front", "C04_swap_remove_back", "C04_remove")
 REGISTRY["C07"]["theorems"] += S("C07", "C07_get", "C07_front", "C07_back", "C07_nth_back", "C07_make_contiguous")
-REGISTRY["C11"]["theorems"] += S("C11", "C11_swap_ok", "C11_swap_panics_i", "C11_swap_panics_j")
+REGISTRY["C11"]["theorems"] += S("C11", "C11_swap_ok", "C11_swap_panics_i", "C11_swap_panics_j", "C11_range_ok", "C11_range_panics")
+REGISTRY["C08"]["theorems"] += S("C08", "C08_over_range", "C08_whole")
 REGISTRY["C20"]["theorems"] += S("C20", "C20_push_back", "C20_push_front", "C20_pop_back", "C20_pop_front", "C20_swap", "C20_remove", "C20_truncate", "C20_make_contiguous")
 
 # C18: the theorems of C01-C13 are what holds for both builds through the same correspondence
